@@ -82,6 +82,10 @@ func c07Run(r *core.Run) {
 	na := nb.Add(time.Duration(600+t.Int(6000, "c07.na")) * time.Second)
 	spCert := world.MintCert(spKey, nb, na, 1)
 	s.Cfg.EncStyle, s.Cfg.EncKeyIdx, s.Cfg.EncCert = ks, spKey, spCert
+	if rs := t.Int(8, "c07.rejectedsetter"); rs >= 1 && rs <= 3 {
+		s.Cfg.RejectedSetters = rs // an attempted rotation to a key that failed to load: refused, changes nothing
+		r.Fault("key_rotation_refused_by_the_sp")
+	}
 	s.Cfg.ValidateEncCert = validate
 	s.Cfg.AllowMissing = true
 	switch keyFault {
